@@ -3,7 +3,7 @@
    (/repo since 834ed95 and 9bc8132); fx = false and start's fail = 3 are history: the code
    before those two commits. *)
 From UV Require Import Lib.Base Model.FsPoll Model.Inotify Proofs.FsPollProofs Proofs.FsPollDrainProofs
-  Proofs.InotifyProofs.
+  Proofs.FsPollCloseProofs Proofs.InotifyProofs.
 Local Open Scope Z_scope.
 
 (* ---------------- fs_poll (Model/FsPoll.v) ---------------- *)
@@ -114,22 +114,30 @@ Theorem C17_hist_close_blocked_before_834ed95 :
   snd (run false (init 1000) (w_close ++ [OClose 0; ODrain w_res1]) w_nobeh 0) =
     [ERet 0; ERet 0; ERet 0; EStat 0; EStat 1; EIter; EIter; EFinal UV_EBUSY 1] /\
   snd (run true (init 1000) (w_close ++ [OClose 0; ODrain w_res1]) w_nobeh 0) =
-    [ERet 0; ERet 0; ERet 0; EStat 0; EStat 1; EIter; EIter; EIter; EClosed 0; EFinal 0 0].
+    [ERet 0; ERet 0; ERet 0; EStat 0; EStat 1; EIter; EIter; EIter; EClosed 0 0; EFinal 0 0].
 Proof. exact closes_clean_refuted. Qed.
 Print Assumptions C17_hist_close_blocked_before_834ed95.
 
-(* C17_close_waits_for_stat -- partial.  Proved: uv_close makes the handle close-pending at once
-   only when it has no context (a stat in flight postpones the close callback), the handle
-   becomes pending when its last context is freed (next two theorems), and in the end every
-   close callback has run (C17_never_blocks_loop_close).  Gap: the ordering statement over whole
-   traces ("EClosed h is never emitted while a context of h is live") needs two more reachable
-   invariants (a live context is in its parent's chain; a handle in the closing list has an empty
-   chain) which are not proved. *)
-Theorem C17_close_waits_for_stat_partial :
+(* C17_close_waits_for_stat -- full, trace level, current code.  [EClosed h n] is the close
+   callback of handle h; n is a ghost the model computes at that moment: the number of contexts
+   of h that are allocated.  In the trace of every script, with any stat answers and any
+   callback behaviour, every close callback is made with n = 0: uv_close waits until the last
+   context (hence the last stat in flight) of the handle is gone.  Proof: two more reachable
+   invariants (a context that is not freed is in its parent's chain; a handle in the closing
+   list is closing and has an empty chain) on top of R. *)
+Theorem C17_close_waits_for_stat :
+  forall t0 os beh,
+  Forall (fun e => match e with EClosed _ n => n = 0%nat | _ => True end)
+         (snd (run true (init t0) os beh 0)).
+Proof. exact close_waits_for_stat. Qed.
+Print Assumptions C17_close_waits_for_stat.
+
+(* per step: uv_close makes the handle close-pending at once only when it has no context *)
+Theorem C17_uv_close_pending_only_without_ctx :
   forall s h, In (CHandle h) (closingq (do_close s h)) -> ~ In (CHandle h) (closingq s) ->
   h_chain (geth (do_close s h) h) = [].
 Proof. exact close_pending_iff_no_ctx. Qed.
-Print Assumptions C17_close_waits_for_stat_partial.
+Print Assumptions C17_uv_close_pending_only_without_ctx.
 
 (* a context is freed by its own timer_close_cb only *)
 Theorem C17_ctx_freed_only_by_own_close_cb :
@@ -170,38 +178,67 @@ Proof.
 Qed.
 Print Assumptions C17_list_freed_iff_empty.
 
-(* uv_fs_event_stop unlinks the handle from the list and from the local queue of an iteration
-   in progress (partial: with the next theorem -- only the head of the local queue is called --
-   this is why a stopped handle gets no callback) *)
-Theorem C17_no_cb_for_stopped_partial :
+(* C17_no_cb_for_stopped -- full, trace level.  [ICb h cb name bits a]: a is a ghost the model
+   computes when the callback is made: is handle h active (started, not stopped, not closed) at
+   that moment.  In the trace of every script -- any inotify_add_watch answers, any events, any
+   uv_fs_event_start/stop/uv_close made from inside the callbacks, on the same path or not --
+   every callback is made to an active handle.  Proof: the membership invariant [Mem] (the handles
+   linked in a watcher list or in the local queue of its iteration are active handles with that
+   wd, each linked once; wds unique) through every operation. *)
+Theorem C17_no_cb_for_stopped :
+  forall os beh,
+  Forall (fun e => match e with ICb _ _ _ _ a => a = true | _ => True end) (snd (irun iinit os beh 0)).
+Proof. intros os beh. exact (no_cb_for_stopped os iinit beh 0%nat Mem_init). Qed.
+Print Assumptions C17_no_cb_for_stopped.
+
+(* per step: uv_fs_event_stop unlinks the handle from the list and from the local queue *)
+Theorem C17_stop_unlinks :
   forall s h w', NoDup (map w_wd (wls s)) -> e_active (gete s h) = true ->
   find_w (wls (fst (ev_stop s h))) (e_wd (gete s h)) = Some w' ->
   ~ In h (w_hs w') /\ ~ In h (w_local w').
 Proof. exact stop_unlinks. Qed.
-Print Assumptions C17_no_cb_for_stopped_partial.
+Print Assumptions C17_stop_unlinks.
 
 Theorem C17_cb_is_head_of_local :
   forall f s wd name bits beh cnt w h rest,
   find_w (wls s) wd = Some w -> w_local w = h :: rest ->
   exists s' evs n, dispatch_loop (S f) s wd name bits beh cnt =
-                   (s', ICb h (e_cb (gete s h)) name bits :: evs, n).
+                   (s', ICb h (e_cb (gete s h)) name bits (e_active (gete s h)) :: evs, n).
 Proof. exact cb_is_head_of_local. Qed.
 Print Assumptions C17_cb_is_head_of_local.
 
-(* Every handle in the list when dispatch starts gets exactly one callback, in list order, with
-   the event's name (or the list's base name) and the mapped bits -- proved for callbacks that
-   make no API call (partial; with API calls inside callbacks the statement is checked by the
-   correspondence monitor only). *)
-Theorem C17_event_reaches_all_partial :
+(* C17_event_reaches_all -- full.  In any state s reached by any script (any kernel answers,
+   events, callback behaviours), for any event (wd, mask, name) whose watcher list is w and any
+   behaviour [beh] of the callbacks made while this event is dispatched: every handle h that is in
+   the list when dispatch starts and that no callback stops or closes gets EXACTLY ONE callback,
+   with the event's name (or the list's base name), the mapped bits (ev_bits: UV_CHANGE for
+   IN_ATTRIB|IN_MODIFY, UV_RENAME for anything else) and while it is active -- whatever else the
+   callbacks do (start/stop/close of other handles on the same path, start of h itself). *)
+Theorem C17_event_reaches_all :
+  forall os0 beh0 wd mask nm w beh cnt h,
+  let s := fst (irun iinit os0 beh0 0) in
+  find_w (wls s) wd = Some w -> In h (w_hs w) ->
+  (forall k, Forall (fun o => o <> IStop h /\ o <> IClose h) (beh k)) ->
+  filter (fun e => match e with ICb h' _ _ _ _ => Nat.eqb h h' | _ => false end)
+         (snd (fst (dispatch_one s (wd, mask, nm) beh cnt))) =
+  [ICb h (e_cb (gete s h)) (match nm with Some n => n | None => w_base w end) (ev_bits mask) true].
+Proof.
+  intros os0 beh0 wd mask nm w beh cnt h s Fw Ih NT.
+  exact (event_reaches_all s wd mask nm w beh cnt h (Mem_irun os0 iinit beh0 0%nat Mem_init) Fw Ih NT).
+Qed.
+Print Assumptions C17_event_reaches_all.
+
+(* and in list order when the callbacks make no API call *)
+Theorem C17_event_reaches_all_in_order :
   forall s wd mask nm w cnt,
   find_w (wls s) wd = Some w ->
   exists tail,
     snd (fst (dispatch_one s (wd, mask, nm) (fun _ => []) cnt)) =
       map (fun h => ICb h (e_cb (gete s h)) (match nm with Some n => n | None => w_base w end)
-                        (ev_bits mask)) (w_hs w) ++ tail /\
+                        (ev_bits mask) (e_active (gete s h))) (w_hs w) ++ tail /\
     (tail = [] \/ tail = [IRm wd]).
 Proof. exact event_reaches_all_quiet. Qed.
-Print Assumptions C17_event_reaches_all_partial.
+Print Assumptions C17_event_reaches_all_in_order.
 
 (* hypotheses are satisfiable: a reachable state with two contexts in one chain, one armed *)
 Example C17_example_reachable :
